@@ -17,7 +17,7 @@
 (***************************************************************************)
 EXTENDS Integers, Sequences, FiniteSets, TLC, Json
 
-CONSTANTS Fams,        \* subset of {"csvc","nusvc","oneclass","esvr","nusvr","f32"}
+CONSTANTS Fams,        \* subset of {"csvc","nusvc","oneclass","esvr","nusvr","f32","offset"}
           MinSmall, MaxSmall,
           Seeds, MedSizes,
           Lite         \* TRUE: reduced parameter grids for the small families (quick tier)
@@ -45,7 +45,8 @@ Mk(kind, x, y, dim, kern, cp, cn, nu, cc, le, shr, ft, pr) ==
   [kind |-> kind,
    inp |-> [x |-> x, y |-> y, dim |-> dim, kern |-> Kern(kern), cp |-> cp, cn |-> cn, nu |-> nu,
             c |-> cc, le |-> le, shr |-> shr, ft |-> ft, tolx |-> IF ft = "f32" THEN 3 ELSE 7,
-            q |-> Queries(dim), eq |-> IF pr THEN ExtremeQ(dim) ELSE <<>>, pr |-> pr]]
+            q |-> Queries(dim), eq |-> IF pr THEN ExtremeQ(dim) ELSE <<>>, pr |-> pr,
+            off |-> 0, ue |-> 0]]
 
 One == <<1, 1>>
 Sorted(m, len) == {s \in [1..len -> 1..m] : \A i \in 1..(len - 1) : s[i] <= s[i + 1]}
@@ -145,7 +146,39 @@ F32Cases ==
   {Mk("csvc", MedX(s, n), MedY(s, n, 0), 2, "lin", <<2, 1>>, <<1, 1>>, One, One, One, shr, "f32", FALSE) :
      s \in Seeds, n \in MedSizes, shr \in BOOLEAN}
 
+(* -------------------------------------------- shifted records (Gaussian kernel)                        *)
+(* The Gaussian kernel is shift-invariant: the harness adds the integer `off` to every coordinate of the    *)
+(* records and of the query points, optionally in lattice units of 2^-ue with the kernel width scaled by     *)
+(* 4^-ue (all exactly representable: 24 significant bits for f32, 53 for f64), the                          *)
+(* specification keeps evaluating the relation on the un-shifted lattice points.  A backward-stable        *)
+(* implementation returns the same model for shifted and centred data (the coordinate differences are      *)
+(* exact); computing |x|^2 + |x'|^2 - 2<x,x'> instead cancels catastrophically and is rejected by the      *)
+(* KKT clauses.                                                                                             *)
+\* `ue`: the lattice unit is 2^-ue (records off + v * 2^-ue, kernel width w * 4^-ue: the same kernel matrix, exactly)
+Shift(k, o) == [k EXCEPT !.inp.off = o[1], !.inp.ue = o[2], !.inp.ft = o[3], !.inp.tolx = IF o[3] = "f32" THEN 3 ELSE 7]
+OffsetsMed   == {<<1000000, 10, "f64">>, <<10000000, 10, "f64">>, <<1073741824, 0, "f64">>,
+                 <<128, 10, "f32">>, <<1024, 8, "f32">>, <<4096, 0, "f32">>}
+OffsetsSmall == {<<10000000, 8, "f64">>, <<1000000, 12, "f64">>, <<128, 10, "f32">>, <<4096, 0, "f32">>}
+OffMedBase ==
+  {Mk("csvc", MedX(s, 12), MedY(s, 12, 0), 2, "rbf5", cw[1], cw[2], One, One, One, shr, "f64", ~shr) :
+     s \in Seeds, cw \in {W2, << <<5, 1>>, <<1, 1>> >>}, shr \in BOOLEAN}
+  \cup {k \in {Mk("nusvc", MedX(s, 12), MedY(s, 12, 0), 2, "rbf5", One, One, nu, One, One, shr, "f64", ~shr) :
+                 s \in Seeds, nu \in {<<1, 4>>, <<1, 2>>}, shr \in BOOLEAN} : NuFeasible(k.inp.y, k.inp.nu)}
+  \cup {Mk("oneclass", MedX(s, 12), [i \in 1..12 |-> 1], 2, "rbf5", One, One, nu, One, One, shr, "f64", FALSE) :
+          s \in Seeds, nu \in {<<1, 4>>, <<1, 2>>}, shr \in BOOLEAN}
+  \cup {Mk("esvr", MedX(s, 12), MedR(s, 12), 2, "rbf5", One, One, One, ce[1], ce[2], shr, "f64", FALSE) :
+          s \in Seeds, ce \in {E1, E2}, shr \in BOOLEAN}
+OffSmallBase ==
+  {Mk("csvc", [i \in DOMAIN s |-> LX(s[i])], [i \in DOMAIN s |-> LY(s[i])], 1, "rbf2", W2[1], W2[2], One, One, One, shr, "f64", ~shr) :
+     s \in {t \in Sorted(6, MinSmall) : BothLabels(t)}, shr \in BOOLEAN}
+  \cup {Mk("esvr", [i \in DOMAIN s |-> RX(s[i])], [i \in DOMAIN s |-> RY(s[i])], 1, "rbf2", One, One, One, E2[1], E2[2], shr, "f64", FALSE) :
+          s \in Sorted(6, MinSmall), shr \in BOOLEAN}
+OffsetCases ==
+  {Shift(k, o) : k \in {b \in OffMedBase : b.kind # "csvc" \/ (Npos(b.inp.y) > 0 /\ Nneg(b.inp.y) > 0)}, o \in OffsetsMed}
+  \cup {Shift(k, o) : k \in OffSmallBase, o \in OffsetsSmall}
+
 All ==
+  (IF "offset" \in Fams THEN OffsetCases ELSE {}) \cup
   (IF "csvc" \in Fams THEN CsvcSmall \cup {k \in CsvcMed : Npos(k.inp.y) > 0 /\ Nneg(k.inp.y) > 0} ELSE {}) \cup
   (IF "nusvc" \in Fams
      THEN {k \in NusvcSmall : NuFeasible(k.inp.y, k.inp.nu) /\ Separable(k.inp.x, k.inp.y)}
